@@ -42,7 +42,36 @@ def lncdfGrad (Phi : α → α) (z : α) : α :=
   if lncdfBackwardSmallMask z then lncdfBackwardSmall (lncdfSmallNum z) (lncdfSmallDen z)
   else lncdfBackwardNotSmall z (lncdf Phi z)
 
+/-- `likelihood.expected_log_prob(y, N(m,v))` / `log_marginal` of a `_OneDimensionalLikelihood` whose rule is `rule` and
+whose conditional log density is `logp` (generated wiring: which function goes into the rule, where the `log` is). -/
+def expectedLogProb (rule : List (α × α)) (logp : α → α) (m v : α) : α :=
+  oneDimExpectedLogProb (fun g => ghApply rule g m v) logp
+
+def logMarginal (rule : List (α × α)) (logp : α → α) (m v : α) : α :=
+  oneDimLogMarginal (fun g => ghApply rule g m v) logp
+
 end rule
+
+/-! ### construction histories: which node count a likelihood instance carries -/
+
+/-- a step of a construction history: change the active `settings.num_gauss_hermite_locs` value (entering / leaving
+a `with` block) or construct one `_OneDimensionalLikelihood` -/
+inductive BuildOp where
+  | setting (n : Nat)
+  | build
+
+/-- the setting active after a history that started under `s` -/
+def activeSetting (s : Nat) : List BuildOp → Nat
+  | [] => s
+  | .setting n :: ops => activeSetting n ops
+  | .build :: ops => activeSetting s ops
+
+/-- node counts of the likelihoods constructed by a history, in order: each constructor call runs the generated
+`_OneDimensionalLikelihood.__init__` → `GaussHermiteQuadrature1D.__init__` chain on the setting active at that time. -/
+def builtCounts (s : Nat) : List BuildOp → List Nat
+  | [] => []
+  | .setting n :: ops => builtCounts n ops
+  | .build :: ops => ghqInitNumLocs likelihoodQuadratureArg s :: builtCounts s ops
 
 section exact
 variable {α : Type} [Add α] [Mul α] [NatCast α]
